@@ -35,13 +35,15 @@ def gen_seq_case(rng, malformed):
         alive = sorted(running)
         every = list(range(nxt))
         if malformed and r < 0.5:
-            k = rng.choice(["watch", "unwatch", "stop", "poison"])
+            k = rng.choice(["watch", "unwatch", "stop", "poison", "passivate"])
             if k in ("watch", "unwatch"):
                 w, a = rng.choice(every), rng.choice(every)
                 if w != a:
                     ops.append({"op": k, "w": w, "a": a})
             else:
                 a = rng.choice(every)
+                if k == "passivate" and (a in parent or a not in running):
+                    k = "stop"      # only top-level actors carry a passivation strategy in the harness
                 ops.append({"op": k, "a": a})
                 stop_model(a, running, parent, has_child)
             continue
@@ -53,7 +55,7 @@ def gen_seq_case(rng, malformed):
             ops.append({"op": "unwatch", "w": w, "a": a})
         elif r < 0.72 and alive:
             a = rng.choice(alive)
-            ops.append({"op": rng.choice(["stop", "stop", "poison"]), "a": a})
+            ops.append({"op": rng.choice(["stop", "stop", "poison", "passivate"] if a not in parent else ["stop", "poison"]), "a": a})
             stop_model(a, running, parent, has_child)
         elif r < 0.84:
             cand = [a for a in alive if a in restartable and a not in has_child and a not in parent]
@@ -176,7 +178,7 @@ def oracle_seq(case, out):
                 watching[w][a] = False
         elif kind == "unwatch":
             watching.get(op["w"], {}).pop(op["a"], None)
-        elif kind in ("stop", "poison"):
+        elif kind in ("stop", "poison", "passivate"):
             a = op["a"]
             terminate(a)
             watching[a] = {}
@@ -246,7 +248,7 @@ def coq_seq_cases(pairs):
                 ops.append("OWatch %d %d" % (cid(op["w"]), cid(op["a"])))
             elif k == "unwatch":
                 ops.append("OUnWatch %d %d" % (cid(op["w"]), cid(op["a"])))
-            elif k in ("stop", "poison"):
+            elif k in ("stop", "poison", "passivate"):
                 ops.append("OStop %d" % cid(op["a"]))
             elif k == "restart":
                 ops.append("ORestart %d" % cid(op["a"]))
@@ -348,7 +350,7 @@ def fmt_ops(ops, limit=30):
             return "%d.%s(%d)" % (op["w"], "Watch" if k == "watch" else "UnWatch", op["a"])
         if k == "spawnchild":
             return "%d.SpawnChild(%d)" % (op["w"], op["a"])
-        return "%s(%d)" % ({"stop": "Shutdown", "poison": "PoisonPill", "restart": "Restart"}[k], op["a"])
+        return "%s(%d)" % ({"stop": "Shutdown", "poison": "PoisonPill", "passivate": "passivate", "restart": "Restart"}[k], op["a"])
     return "; ".join(f(o) for o in ops[:limit]) + (" ..." if len(ops) > limit else "")
 
 
